@@ -6,3 +6,7 @@ package verifhook
 
 // At does nothing unless built with the verif tag.
 func At(point string, key any) {}
+
+// AtTag is At for a (type, tag) registry key. It does nothing unless built with
+// the verif tag.
+func AtTag(point string, typ any, tag string) {}
